@@ -121,6 +121,8 @@ class Terms:
                 if isinstance(v, str):
                     v = int(v)
                 return ("c", v, o.get("cname"))
+            if "deref_val" in o:
+                return ("&", ("c", o["deref_val"], o.get("deref_adt")))
             if "fndef" in o:
                 return ("fn", o["fndef"])
             if "str" in o:
